@@ -4,6 +4,7 @@
 (* order, every numeric field character by character):                       *)
 (*  tree = [ objsense : "" or a MAX/MIN spelling (upper case),                *)
 (*           objrow   : name of the first N row, nrows : further N rows,      *)
+(*           objname  : "" or the row named in an OBJNAME section,            *)
 (*           rows     : Seq([t : "L"|"G"|"E", name]),                          *)
 (*           cols     : Seq([col, ent : Seq([row, val]), integer]),            *)
 (*           rhs, ranges : Seq([row, val]),  bounds : Seq([t, col, val]) ]     *)
@@ -47,6 +48,9 @@ ApplyBounds(bs, k, B) ==
                     [] OTHER -> int(setUp(cur, Val(e.val)))        \* UI
        IN ApplyBounds(bs, k + 1, [B EXCEPT ![e.col] = new])
 
+\* the objective is the N row named by the OBJNAME section, otherwise the first N row of the ROWS section
+ObjRow(tree) == IF "objname" \in DOMAIN tree /\ tree.objname # "" THEN tree.objname ELSE tree.objrow
+
 Denote(tree) ==
   LET cols == tree.cols
       n == Len(cols)
@@ -75,7 +79,7 @@ Denote(tree) ==
       rhs |-> [i \in 1..m |-> rhs(i)],
       range |-> [i \in 1..m |-> IF hasRange(i) THEN RAbs(rng(i)) ELSE "0"],
       rname |-> [i \in 1..m |-> rows[i].name],
-      obj |-> [j \in 1..n |-> SumEnt(cols[j].ent, 1, tree.objrow, "0")],
+      obj |-> [j \in 1..n |-> SumEnt(cols[j].ent, 1, ObjRow(tree), "0")],
       lo |-> [j \in 1..n |-> lo(j)], up |-> [j \in 1..n |-> up(j)],
       cname |-> cname, isint |-> [j \in 1..n |-> IF isint(j) THEN 1 ELSE 0],
       max |-> tree.objsense \in MaxWords]
